@@ -126,7 +126,7 @@ CHECKS = {
     'C15': dict(cat='exploration', ref='3 C15',
                 text='Generated FILE-LISTs and directory trees with symlinks; reference list interpreter and matcher '
                      'evaluator over a tree data structure; populate-then-match round trip.',
-                note='',
+                note=' Exhaustive sub-check populate_over_links: a name of the list that is taken by a symbolic link made by the case (dangling / to a file / to a directory outside) is a HARD_ERROR and nothing outside changes.',
                 technique='Hypothesis generation, reference model + round trip'),
     'C16': dict(cat='exploration', ref='3 C16',
                 text='Generated suite hierarchies with outcome assignment; reference model of processing order, '
@@ -156,7 +156,7 @@ CHECKS = {
                 text='Every place a process can start x child behaviour x timeout history x other settings made in '
                      '[setup] (env with/without -of, cd, stdin), run in-process (thorough: also as sub-processes) '
                      'with wall-clock margins; HARD_ERROR in the right phase, child dead, cleanup ran, sandbox gone.',
-                note='Wall clock: wide margins, inconclusive outcome instead of violation in the margin.',
+                note='Wall clock: wide margins, inconclusive outcome instead of violation in the margin. In the cells where the timeout must fire the child must have been started once (not restarted).',
                 technique='enumerated place x schedule matrix with probe children'),
     'C20': dict(cat='exploration', ref='3 C20',
                 text='Exhaustive: every listed and every accepted instruction/entity/builtin symbol has a help page '
